@@ -542,6 +542,37 @@ impl NetworkTopology {
         self.multiplexers.take();
     }
 
+    /// Canonical dump of the links and of the demultiplexer addresses.
+    #[cfg(feature = "verif")]
+    #[allow(clippy::type_complexity)]
+    pub(crate) fn verif_dump(
+        &self,
+    ) -> (
+        Vec<(Coord, Coord, bool)>,
+        Vec<((BlockId, crate::scheduler::HostId, BlockId), String, u16)>,
+    ) {
+        let mut links = vec![];
+        for ((from, _typ), tos) in self.next.iter() {
+            for (to, fragile) in tos {
+                links.push((*from, *to, *fragile));
+            }
+        }
+        links.sort();
+        let mut addrs: Vec<_> = self
+            .demultiplexer_addresses
+            .iter()
+            .map(|(d, (a, p))| {
+                (
+                    (d.coord.block_id, d.coord.host_id, d.prev_block_id),
+                    a.clone(),
+                    *p,
+                )
+            })
+            .collect();
+        addrs.sort();
+        (links, addrs)
+    }
+
     pub fn log(&self) {
         let mut topology = "execution graph:".to_owned();
         let mut sorted = self.next.iter().collect::<Vec<_>>();
